@@ -196,7 +196,7 @@ def gen_case(rng, force_dir=None):
     # the first calculation and the observed one share the scheduler OBJECT in half of these cases (a scheduler
     # that remembers capacities across calculations must not answer with the calendar as it was)
     same_sched = bool(edits) and rng.random() < 0.5
-    return {'edit_same_scheduler': same_sched,'dir': 'fwd' if fwd else 'bwd', 'tasks': tasks, 'ext': ext, 'links': links, 'link_via_succ': rng.random() < 0.4,
+    return {'edit_same_scheduler': same_sched, 'poke_getters': rng.random() < 0.12,'dir': 'fwd' if fwd else 'bwd', 'tasks': tasks, 'ext': ext, 'links': links, 'link_via_succ': rng.random() < 0.4,
             'edit_calendars': edits,
             'resources': supplied, 'balance': rng.random() < 0.7,
             'default_estimate': rng.choice([None, None, 0, 8, 64, 128]), 'pbound': pbound, 'now': now, 'now2': now2,
